@@ -81,6 +81,24 @@ cJSON_bool vf_stub_parse_string(cJSON * const item, parse_buffer * const b)
     if (len <= b->length - b->offset) b->offset += len;
     return 0;
 }
+/* generic callee stub for parse_value's dispatch targets (parse_number / parse_array / parse_object):
+ * harness VF_INPUTS must then contain X(unsigned char, sub_ok, ) X(unsigned char, sub_len, ) */
+#ifdef VF_STUB_SUBS
+static int sub_called;          /* 0 none, 1 number, 2 array, 3 object */
+static size_t sub_off; static cJSON *sub_item; static int sub_result; static unsigned sub_calls;
+static cJSON_bool vf_stub_sub(cJSON * const item, parse_buffer * const b, int which)
+{
+    sub_calls++; sub_called = which; sub_off = b->offset; sub_item = item; sub_result = 0;
+    if (IN.sub_ok && IN.sub_len >= 1 && b->offset <= b->length && IN.sub_len <= b->length - b->offset) {
+        item->type = which == 1 ? cJSON_Number : which == 2 ? cJSON_Array : cJSON_Object;
+        b->offset += IN.sub_len; sub_result = 1; return 1;
+    }
+    return 0;
+}
+static cJSON_bool parse_number(cJSON * const item, parse_buffer * const input_buffer) { return vf_stub_sub(item, input_buffer, 1); }
+static cJSON_bool parse_array(cJSON * const item, parse_buffer * const input_buffer) { return vf_stub_sub(item, input_buffer, 2); }
+static cJSON_bool parse_object(cJSON * const item, parse_buffer * const input_buffer) { return vf_stub_sub(item, input_buffer, 3); }
+#endif
 /* bind the library's calls to the stubs (the driver renamed the real definitions to <name>__real) */
 #ifdef VF_STUB_parse_value
 static cJSON_bool parse_value(cJSON * const item, parse_buffer * const input_buffer) { return vf_stub_parse_value(item, input_buffer); }
